@@ -23,9 +23,12 @@ from dst.kernel import derive_seed, digest, canon
 from dst.world import Violation, KnownFindingStop
 
 ROOT = os.path.dirname(os.path.dirname(os.path.abspath(__file__)))
-REPLAYS = os.path.join(ROOT, "replays")
+# VERIF_SCRATCH redirects what a run writes (used when trying the checks against a scratch copy of
+# the repository, so that the committed evidence is only ever written by runs against /repo)
+_OUT = os.environ.get("VERIF_SCRATCH") or ROOT
+REPLAYS = os.path.join(_OUT, "replays")
 FINDINGS = os.path.join(ROOT, "findings")
-EVIDENCE = os.path.join(ROOT, "evidence")
+EVIDENCE = os.path.join(_OUT, "evidence")
 KF_FILE = os.path.join(ROOT, "known_findings.json")
 
 REAL_COMPONENTS = ["orquesta.conducting", "orquesta.machines", "orquesta.events", "orquesta.statuses",
